@@ -189,7 +189,7 @@ Proof.
       replace (skipn (length q) q) with (@nil N) by (symmetry; apply skipn_all). reflexivity.
   - (* directory *)
     cbn [erase_faults]. rewrite !sched_calls_dir_gen.
-    rewrite tree_quiet_dir in Q. apply andb_true_iff in Q as [_ QC].
+    rewrite tree_quiet_dir in Q. pose proof Q as QC.
     rewrite gi_readable_dir in GR. apply andb_true_iff in GR as [QG GC].
     rewrite dir_decision_erase by exact QG.
     destruct (dir_decision c ms (mpath q) ch) as [| |ms']; try reflexivity.
@@ -254,9 +254,8 @@ Lemma tree_quiet_erase c : forall nd, tree_quiet c (erase_faults nd) = true.
 Proof.
   induction nd as [n k s d ff|n ch df IH] using node_ind2.
   - reflexivity.
-  - cbn [erase_faults]. rewrite tree_quiet_dir. apply andb_true_iff. split.
-    + unfold gi_child_ok. rewrite find_child_erase. destruct (find_child GI ch) as [[]|]; cbn; rewrite ?orb_true_r; reflexivity.
-    + induction ch as [|c1 ch IHc]; [reflexivity|]. inversion IH; subst. cbn [map forallb]. rewrite H1, IHc by assumption. reflexivity.
+  - cbn [erase_faults]. rewrite tree_quiet_dir.
+    induction ch as [|c1 ch IHc]; [reflexivity|]. inversion IH; subst. cbn [map forallb]. rewrite H1, IHc by assumption. reflexivity.
 Qed.
 
 Theorem faults_contained_lemma c t :
